@@ -96,6 +96,53 @@ func (m *Model) RunRegistry(s *Sink, rule string) {
 		} else {
 			s.Violation(rule, fk+"|stores only when the name is free", m.InstrPos(upd), "%s stores into customFunc%s without a dominating failed lookup of the same map and key: a second registration replaces the first function (or the check consults a different receiver type's table)", fk, mapPath)
 		}
+		// a name that is free is accepted: every return of an error lies on the hit edge of a lookup in a registry table
+		{
+			refused := ""
+			for _, b := range owner.Blocks {
+				ret, ok := b.Instrs[len(b.Instrs)-1].(*ssa.Return)
+				if !ok || len(ret.Results) != 1 || isNilConst(ret.Results[0]) {
+					continue
+				}
+				onHit := false
+				for _, f := range expandFacts(factsAt(b)) {
+					if ex, isEx := f.Cond.(*ssa.Extract); isEx && ex.Index == 1 && f.Holds {
+						if lk, isLk := ex.Tuple.(*ssa.Lookup); isLk && lk.CommaOk && isCustomFuncMap(lk.X.Type()) {
+							onHit = true
+						}
+					}
+				}
+				if ph, isPhi := ret.Results[0].(*ssa.Phi); isPhi && !onHit {
+					// a merged result: every edge that brings an error comes from the hit side
+					all := true
+					for i, e := range ph.Edges {
+						if isNilConst(e) {
+							continue
+						}
+						hit := false
+						for _, f := range expandFacts(factsAt(ph.Block().Preds[i])) {
+							if ex, isEx := f.Cond.(*ssa.Extract); isEx && ex.Index == 1 && f.Holds {
+								if lk, isLk := ex.Tuple.(*ssa.Lookup); isLk && lk.CommaOk && isCustomFuncMap(lk.X.Type()) {
+									hit = true
+								}
+							}
+						}
+						if !hit {
+							all = false
+						}
+					}
+					onHit = all
+				}
+				if !onHit && refused == "" {
+					refused = m.InstrPos(ret)
+				}
+			}
+			if refused == "" {
+				s.OK(rule, fk+"|a free name is accepted", m.Pos(owner.Pos()), "every return of an error lies on the hit edge of the lookup in the table")
+			} else {
+				s.Violation(rule, fk+"|a free name is accepted", refused, "%s can return an error for a name that is not in the table yet (at %s): the first registration of such a name fails, and every call of it in a template is \"function doesn't exist\"", fnKey(owner), refused)
+			}
+		}
 		// the field matches the function's receiver type
 		want := ""
 		for k, fld := range kindField {
